@@ -24,6 +24,7 @@ import (
 	"compress/gzip"
 	"errors"
 	"io"
+	"runtime/debug"
 	"sync"
 
 	"github.com/rqlite/rqlite/v10/command/proto"
@@ -780,28 +781,43 @@ type verifKept struct {
 	compressed bool
 }
 
-// verifEncodeRequest: a request of the given kind through marshaler m, compressed (the batch
-// threshold is reached; kept because forced, or because the gzip form is smaller).
-func verifEncodeRequest(pre string, m *RequestMarshaler, kind int) *verifKept {
+// verifPending is a message that is ready to be encoded (built, and natively shaped, beforehand so
+// that nothing else happens between two encodings).
+type verifPending struct {
+	msg  pb.Message // *proto.LoadRequest or a Requester
+	m    *RequestMarshaler
+	kind int
+}
+
+// verifPrepareRequest: a request of the given kind for marshaler m; it will be compressed (the
+// batch threshold is reached; kept because forced, or because the gzip form is smaller).
+func verifPrepareRequest(pre string, m *RequestMarshaler, kind int) *verifPending {
 	req := verifBuildRequestP(pre, 1, 8)
 	msg := verifBuildMessageP(pre, kind, req)
 	if !m.ForceCompression && !verifSymbolic() {
 		verifAssume(verifTune(msg, req, -(1 << 30), -1)) // natively: content that really compresses
 	}
-	k := &verifKept{orig: verifClone(msg), t: verifCommandType(kind)}
-	b, compressed, err := m.Marshal(msg)
+	return &verifPending{msg: msg, m: m, kind: kind}
+}
+
+func verifPrepareLoad(pre string) *verifPending {
+	return &verifPending{msg: &proto.LoadRequest{Data: verifBytes(pre+"data", 2)}}
+}
+
+// verifEncode runs the real encoder and keeps exactly the slice it returns.
+func verifEncode(p *verifPending) *verifKept {
+	if lr, ok := p.msg.(*proto.LoadRequest); ok {
+		k := &verifKept{orig: verifClone(lr), t: proto.Command_COMMAND_TYPE_LOAD}
+		b, err := MarshalLoadRequest(lr)
+		verifAssert("C29-load-marshals", err == nil)
+		k.payload = b
+		return k
+	}
+	k := &verifKept{orig: verifClone(p.msg), t: verifCommandType(p.kind)}
+	b, compressed, err := p.m.Marshal(p.msg.(Requester))
 	verifAssert("C29-request-marshals", err == nil)
 	verifAssume(compressed)
 	k.payload, k.compressed = b, compressed
-	return k
-}
-
-func verifEncodeLoad(pre string) *verifKept {
-	lr := &proto.LoadRequest{Data: verifBytes(pre+"data", 2)}
-	k := &verifKept{orig: verifClone(lr), t: proto.Command_COMMAND_TYPE_LOAD}
-	b, err := MarshalLoadRequest(lr)
-	verifAssert("C29-load-marshals", err == nil)
-	k.payload = b
 	return k
 }
 
@@ -837,35 +853,44 @@ func verifStillDecodes(k *verifKept) bool {
 func VerifC29Kept() {
 	verifPanicsAreViolations()
 	m1 := &RequestMarshaler{BatchThreshold: 0, SizeThreshold: 1 << 30, ForceCompression: verifChoice("force1", 2) == 1}
-	m2 := &RequestMarshaler{BatchThreshold: 1, SizeThreshold: 1 << 30, ForceCompression: verifChoice("force2", 2) == 1}
+	m2 := &RequestMarshaler{BatchThreshold: 1, SizeThreshold: 1 << 30, ForceCompression: !m1.ForceCompression}
+	if verifTier() == 1 {
+		m2.ForceCompression = verifChoice("force2", 2) == 1
+	}
 	kindA := verifChoice("kindA", verifKinds)
 	kindB := (kindA + verifChoice("kindBOffset", 2)) % verifKinds
-	var a, b *verifKept
+	var pa, pb2 *verifPending
 	switch verifChoice("scenario", 5) {
 	case 0:
-		a = verifEncodeRequest("a.", m1, kindA)
-		b = verifEncodeRequest("b.", m1, kindB)
+		pa, pb2 = verifPrepareRequest("a.", m1, kindA), verifPrepareRequest("b.", m1, kindB)
 		verifReach("same-marshaler")
 	case 1:
-		a = verifEncodeRequest("a.", m1, kindA)
-		b = verifEncodeRequest("b.", m2, kindB)
+		pa, pb2 = verifPrepareRequest("a.", m1, kindA), verifPrepareRequest("b.", m2, kindB)
 		verifReach("two-marshalers")
 	case 2:
-		a = verifEncodeRequest("a.", m1, kindA)
-		b = verifEncodeLoad("b.")
+		pa, pb2 = verifPrepareRequest("a.", m1, kindA), verifPrepareLoad("b.")
 		verifReach("request-then-load")
 	case 3:
-		a = verifEncodeLoad("a.")
-		b = verifEncodeRequest("b.", m1, kindB)
+		pa, pb2 = verifPrepareLoad("a."), verifPrepareRequest("b.", m1, kindB)
 		verifReach("load-then-request")
 	case 4:
-		a = verifEncodeLoad("a.")
-		b = verifEncodeLoad("b.")
+		pa, pb2 = verifPrepareLoad("a."), verifPrepareLoad("b.")
 		verifReach("two-loads")
 	}
-	var c *verifKept
+	var pc *verifPending
 	if verifTier() == 1 {
-		c = verifEncodeRequest("c.", m2, kindA)
+		pc = verifPrepareRequest("c.", m2, kindA)
+	}
+	if !verifSymbolic() {
+		// the real sync.Pool forgets its content after two garbage collections; keep the collector
+		// out of the few steps below so that the replay is deterministic
+		defer debug.SetGCPercent(debug.SetGCPercent(-1))
+	}
+	a := verifEncode(pa)
+	b := verifEncode(pb2)
+	var c *verifKept
+	if pc != nil {
+		c = verifEncode(pc)
 	}
 	verifAssert("C29-kept-encoding-still-decodes-to-its-request", verifStillDecodes(a))
 	verifAssert("C29-later-encoding-decodes-to-its-request", verifStillDecodes(b))
